@@ -38,18 +38,22 @@ InputLen(c) ==
     [] c.kind = "Multihot" -> c.len + Bits(c.maxw)
     [] c.kind = "L1BoundSum" -> BitsC(c) * (c.len + 1)
     [] c.kind = "HigherDegree" -> 1
+    [] c.kind = "Ternary" -> c.len          \* user-defined: len digits 0..2, a degree-3 gadget called once per digit
 Calls(c) ==
   CASE c.kind = "Count" -> 1
     [] c.kind = "Sum" -> BitsC(c)
     [] c.kind = "HigherDegree" -> 1
+    [] c.kind = "Ternary" -> c.len
     [] OTHER -> CeilDiv(InputLen(c), c.chunk)
 Gadget(c) ==
   CASE c.kind = "Count" -> [g |-> "Mul", arity |-> 2, degree |-> 2, calls |-> 1, chunks |-> 0]
     [] c.kind = "Sum"   -> [g |-> "Range2", arity |-> 1, degree |-> 2, calls |-> Calls(c), chunks |-> 0]
     [] c.kind = "HigherDegree" -> [g |-> "Range3", arity |-> 1, degree |-> 3, calls |-> 1, chunks |-> 0]
+    [] c.kind = "Ternary" -> [g |-> "Range3", arity |-> 1, degree |-> 3, calls |-> c.len, chunks |-> 0]
     [] OTHER -> [g |-> "ParSum", arity |-> 2 * c.chunk, degree |-> 2, calls |-> Calls(c), chunks |-> c.chunk]
 JointRandLen(c) == IF Chunked(c) THEN Calls(c) ELSE 0
 EvalOutLen(c) == CASE c.kind = "Sum" -> BitsC(c)
+                   [] c.kind = "Ternary" -> c.len
                    [] c.kind \in {"Histogram", "Multihot", "L1BoundSum"} -> 2
                    [] OTHER -> 1
 OutputLen(c) ==  \* length of the truncated (aggregatable) vector
@@ -75,6 +79,7 @@ CallInputs(c, inp, jr, ns) ==
   CASE c.kind = "Count" -> << <<inp[1], inp[1]>> >>
     [] c.kind = "Sum" -> [k \in 1..Len(inp) |-> <<inp[k]>>]
     [] c.kind = "HigherDegree" -> << <<inp[1]>> >>
+    [] c.kind = "Ternary" -> [k \in 1..Len(inp) |-> <<inp[k]>>]
     [] OTHER ->
        LET nsinv == Inv(ns % P)
            n == InputLen(c)
@@ -93,6 +98,7 @@ Output(c, inp, jr, ns, gout) ==
   CASE c.kind = "Count" -> << Sub(gout[1], inp[1]) >>
     [] c.kind = "Sum" -> gout
     [] c.kind = "HigherDegree" -> gout
+    [] c.kind = "Ternary" -> gout
     [] c.kind = "SumVec" -> << SumSeq(gout) >>
     [] c.kind = "Histogram" -> << SumSeq(gout), Sub(SumSeq(inp), Inv(ns % P)) >>
     [] c.kind = "Multihot" ->
@@ -146,13 +152,14 @@ SeqSumInt(s) == LET RECURSIVE go(_)  go(t) == IF t = <<>> THEN 0 ELSE Head(t) + 
 Encode(c, m) ==
   CASE c.kind = "Count" -> <<m>>
     [] c.kind = "HigherDegree" -> <<m % P>>
+    [] c.kind = "Ternary" -> [i \in 1..c.len |-> m[i] % P]
     [] c.kind = "Sum" -> EncodeRC(m, c.max)
     [] c.kind = "SumVec" -> Concat([i \in 1..c.len |-> EncodeRC(m[i], c.max)])
     [] c.kind = "Histogram" -> [i \in 1..c.len |-> IF i = m + 1 THEN 1 ELSE 0]
     [] c.kind = "Multihot" -> m \o EncodeRC(SeqSumInt(m), c.maxw)
     [] c.kind = "L1BoundSum" -> Concat([i \in 1..c.len |-> EncodeRC(m[i], c.max)]) \o EncodeRC(SeqSumInt(m), c.max)
 Truncate(c, inp) ==
-  CASE c.kind \in {"Count", "Histogram", "HigherDegree"} -> inp
+  CASE c.kind \in {"Count", "Histogram", "HigherDegree", "Ternary"} -> inp
     [] c.kind = "Sum" -> << DecodeRC(inp, c.max) >>
     [] c.kind = "SumVec" -> [i \in 1..c.len |-> DecodeRC(Chunk(inp, Bits(c.max), i), c.max)]
     [] c.kind = "Multihot" -> SubSeq(inp, 1, c.len)
@@ -169,6 +176,7 @@ IsBits(xs) == \A i \in 1..Len(xs) : xs[i] \in {0, 1}
 ValidInput(c, inp) ==
   CASE c.kind = "Count" -> inp[1] \in {0, 1}
     [] c.kind = "HigherDegree" -> inp[1] \in {0, 1, 2}
+    [] c.kind = "Ternary" -> \A i \in 1..Len(inp) : inp[i] \in {0, 1, 2}
     [] c.kind \in {"Sum", "SumVec"} -> IsBits(inp)
     [] c.kind = "Histogram" -> IsBits(inp) /\ SumSeq(inp) = 1
     [] c.kind = "Multihot" ->
